@@ -70,6 +70,11 @@ func (m *OddPrimeSquare) MultiplicativeOrder() algebra.Cardinal {
 // instance from the given odd prime factors p and q.
 // Returns ct.False if the inputs are invalid (not distinct).
 func NewOddPrimeSquareFactors(firstPrime, secondPrime *numct.Nat) (m *OddPrimeSquareFactors, ok ct.Bool) {
+	// factors 0 and 1 (or missing ones) have no modulus p or p-1: the precomputations below would
+	// dereference nil
+	if firstPrime == nil || secondPrime == nil || (firstPrime.IsZero()|secondPrime.IsZero()|firstPrime.IsOne()|secondPrime.IsOne()) == ct.True {
+		return nil, ct.False
+	}
 	allOk := firstPrime.Equal(secondPrime).Not()
 
 	// Clone the inputs to avoid any possibility of mutation
